@@ -117,7 +117,9 @@ func GenC10(verifSeed uint64, run int) *Scenario {
 	// dpkg-sig stores the signature in the ar member _gpg<type>: a type that
 	// cannot be stored under that name (an ar member name holds 16 bytes, no
 	// slash) is an invalid signature type
-	for _, bad := range [][2]string{{"too-long-for-the-ar-member-name", "builder-release"}, {"contains-a-slash", "build/er"}} {
+	for _, bad := range [][2]string{{"too-long-for-the-ar-member-name", "builder-release"}, {"contains-a-slash", "build/er"},
+		// twelve letters, thirteen bytes: the ar name field counts bytes
+		{"too-long-for-the-ar-member-name", "\u00fcbersetzerin"}} {
 		kind, val := bad[0], bad[1]
 		for _, sign := range []string{"", "callback"} {
 			plan.Cases = append(plan.Cases, Case{Format: "deb", Sign: sign, Class: "sigtype", Invalid: kind, Config: variant(func(m map[string]any) {
